@@ -18,6 +18,8 @@ def key_of(r):
             return "address/save/%s/returned-id-is-not-hash" % r["what"]
         return "address/save/%s/not-stored" % r["what"]
     if op == "read":
+        if r["api"] == "CheckPack" and any((not x["err"]) and (not x["hash_ok"]) for x in r["results"]):
+            return "address/read/CheckPack/%s/mismatch-passes-verification" % r["target"]
         if any((not x["err"]) and (not x["hash_ok"]) for x in r["results"]):
             return "address/read/%s/%s/wrong-content-handed-out" % (r["api"], r["target"])
         return "address/read/%s/%s/undisturbed-read-failed" % (r["api"], r["target"])
